@@ -54,6 +54,14 @@ let () =
                 ~apply:(fun a rhs x -> Cheby.cheby_apply sc cdm degree a rhs x (zeros n) (zeros n)) a rhs x));
   reg "ilu0" (fun t -> let mode = t_s t in let w = t_q t in
     ilu_modes mode w (fun a -> unres (Ilu.ilu0 sc a [])) t);
+  (* parallel (level-scheduled) forms of the implementation: same model *)
+  reg "ilu0p" (fun t -> let mode = t_s t in let w = t_q t in
+    ilu_modes mode w (fun a -> unres (Ilu.ilu0 sc a [])) t);
+  reg "gsp" (fun t -> let mode = t_s t in
+    let a = t_crs t in let rhs = t_vec t in let x = t_vec t in
+    show_vec (run_mode mode ~pre:(fun a rhs x -> Relax.gs_sweep sc a rhs x true)
+                ~post:(fun a rhs x -> Relax.gs_sweep sc a rhs x false)
+                ~apply:(fun a rhs x -> Relax.gs_apply sc a rhs x) a rhs x));
   reg "iluk" (fun t -> let mode = t_s t in let k = t_i t in let w = t_q t in
     ilu_modes mode w (fun a -> Ilu.iluk sc k a []) t);
   reg "ilup" (fun t -> let mode = t_s t in let k = t_i t in let w = t_q t in
